@@ -22,7 +22,7 @@ EXPLANATION = (
     "(ii) reported spending/capacity/eligible/number covered are the ones used (capacity = spending(dt)/unit cost, eligible = sum of targeted compartments, number = fraction*eligible/dt); "
     "(iii) outside [start, stop] and for untargeted parameters the value is the data value. Bounds: one population (plus a 2-population variant in thorough), T = 4, dt = 0.25, <= 2 programs per parameter."
 )
-GROUP_TIMEOUT = {"quick": 900, "thorough": 3000}
+GROUP_TIMEOUT = {"quick": 1800, "thorough": 3600}
 
 PROGS = [
     # name, target comps, one_off, effects {(par): outcome symbol}
